@@ -12,7 +12,7 @@ def run(tier):
     res.assumptions = ["'no solution' is only ever concluded by z3 on the constraint fragment; elsewhere only 'has a solution' is known (planted / metamorphic)",
                        "non-terminating searches are inconclusive"]
     exes = c01.probes(tier)
-    total = 2400 if tier == "quick" else 16000
+    total = 2400 if tier == "quick" else 60000
     per = 20 if tier == "quick" else 50
     common.pmap(c01.cons_work, [(exes, s + 700000, per, PID) for s in range(0, total, per)], res)
     common.pmap(c01.cons_work, [(exes, s + 700000, per, PID, "tp") for s in range(0, total // 3, per)], res)
